@@ -24,7 +24,40 @@ N_STREAMS = {"quick": 38, "thorough": 1300}
 
 
 def plan(tier: str, seed: int) -> list[dict]:
-    return [{"kind": "gen", "n": N_STREAMS[tier]} for _ in range(16)]
+    shards = [{"kind": "gen", "n": N_STREAMS[tier]} for _ in range(16)]
+    # small scope, exhaustively: short streams of the smallest readouts the syntax allows next to ones with the longest identification
+    # line, under EVERY splitting into one, two and three calls
+    shards += [{"kind": "allcuts", "k": k, "n": 3 if tier == "quick" else 12} for k in range(4)]
+    return shards
+
+
+def run_allcuts(shard: dict, ctx) -> None:
+    import itertools
+
+    from vf.ref import p1_ref as _p
+
+    rng = ctx.rng("c05", "allcuts", shard["k"])
+    for i in range(shard["n"]):
+        def tiny():
+            ident = rng.choice((b"/ABC5", b"/ISk5x", _p.strict_ident(rng, with_id=False)[0][:7]))
+            return _p.build_readout(ident, [], rng.choice((b"\r\n", b"\n")), rng.choice((None, None, "correct")), False)
+
+        def long_ident():
+            while True:
+                ident = _p.strict_ident(rng)[0]
+                if len(ident) >= 22:
+                    return _p.build_readout(ident, [b"1-0:1.8.0(1*kWh)"] * rng.choice((0, 1)), b"\r\n", rng.choice((None, "correct")), rng.random() < 0.5)
+
+        sent = [f() for f in rng.choice(((tiny, long_ident, tiny), (tiny, tiny, long_ident), (long_ident, tiny, long_ident), (tiny, long_ident)))]
+        stream = b"".join(sent)
+        n = len(stream)
+        count = 0
+        for cuts in itertools.chain(((c,) for c in range(1, n)), itertools.combinations(range(1, n), 2)):
+            compare(b"", sent, ("cuts", list(cuts)), ctx)
+            count += 1
+        ctx.case(b"allcuts" + stream, True, count)
+        ctx.count("short_streams_under_every_splitting_into_up_to_three_calls")
+        ctx.count("splittings_enumerated", count)
 
 
 STATS: dict = {}
@@ -39,6 +72,12 @@ def make_stream(rng):
         t = p1_gen.Template(rng, rng.choice((0, 1, 3, 6, 12, 30)), checksum=rng.choice(("correct", "correct", None)))
         sent = [t.make(ids) for _ in range(n)]
         template_len = len(sent[0])
+        if rng.random() < 0.3:
+            # a meter whose readings do not change sends byte-identical readouts
+            for _ in range(rng.choice((1, 2, 5))):
+                pos = rng.randrange(len(sent))
+                sent[pos:pos] = [sent[pos]] * rng.choice((1, 1, 2, 3))
+            STATS["streams_with_byte_identical_readouts_in_a_row"] = STATS.get("streams_with_byte_identical_readouts_in_a_row", 0) + 1
         if rng.random() < 0.4:
             # a meter repeats its identification line for ever - until another meter answers on the same line (multiplexer, replacement):
             # a run with one identification line, then readouts with another one, possibly the first one again in between
@@ -183,6 +222,8 @@ def compare(lead: bytes, sent: list[bytes], spec, ctx) -> None:
 
 
 def run(shard: dict, ctx) -> None:
+    if shard.get("kind") == "allcuts":
+        return run_allcuts(shard, ctx)
     for i in range(shard["n"]):
         rng = ctx.rng("c05", i)
         ctx.regen = {"shard": shard["index"], "i": i, "seed": ctx.seed}
